@@ -1599,6 +1599,10 @@ func (g *gen) opQuery() string {
 	if g.pct(70) {
 		g.pending = append(g.pending, d.set("via", vias[1-first]).line())
 	}
+	// the client-side recovery of a request from its id (client.go) on the same state
+	if d.f["kind"] == "request" && g.pct(60) {
+		g.pending = append(g.pending, d.set("via", "client").line())
+	}
 	return line
 }
 
